@@ -69,12 +69,21 @@ def run(tier, replay=None):
     b, log = compile_harness("h_dimacs.cpp", libs=(), tbb=False, mpi=False, sanitize=True)
     if b:
         from c10 import gen_text
-        text = ""
+        text, texts = "", {}
         for i in range(200):
             t, exp, tr = gen_text(r, malformed=(i % 9 == 0))
             f = os.path.join(scratch(), "s%d.dimacs" % i); open(f, "w").write(t)
+            texts[i] = (f, t)
             text += "case s%d dimacs %s\nend\n" % (i, f)
-        rc, out, err = run_harness(b, text); check("h_dimacs", rc, err, "200 texts")
+        rc, out, err = run_harness(b, text)
+        if rc != 0 or "Sanitizer" in err or "runtime error" in err:
+            culprit = None
+            for i, (f, t) in texts.items():      # find the text
+                rc1, o1, e1 = run_harness(b, "case s%d dimacs %s\nend\n" % (i, f))
+                if rc1 != 0 or "Sanitizer" in e1 or "runtime error" in e1:
+                    culprit = {"text": t, "report": e1[-2500:]}; break
+            reports.append({"harness": "h_dimacs", "what": "read_dimacs_from_file on a generated text", "exit": rc, "input": culprit, "report": err[-1500:]})
+        nrun += 1
     res.coverage.update({"explanation": "AddressSanitizer + UndefinedBehaviorSanitizer + LeakSanitizer builds of every harness (graph algorithms: forest, fvs, trees, three candidate builders, spanner, six exact and six approximate entry points on double and int weights; SpVecGF2; fp/SpVecFP; DIMACS reader) run on degenerate graphs (empty, single vertex, edgeless, forests, disconnected) and on the regular generators; emitted edge descriptors are dereferenced through the caller's property maps after the call returned. A sanitizer report is a violation with the input that triggers it. The logic part (index ranges, no underflow, provenance) is carried by the listed theorems of C04/C05/C13/C15/C16/C17.",
         "evaluations": nrun, "distinct_nontrivial": len(cases) * len(plan), "rule": "one evaluation = one input through one sanitized entry point; distinct by (input, entry point)",
         "kinds": kinds_run, "samples": [{"n": c[0], "edges": c[1], "tag": c[3]} for c in DEGENERATE[:3]]})
